@@ -14,7 +14,7 @@ Implementation-level oracle (no model): an accepted program, run with the optimi
 frame arena as the CLI runs it (and again without either), ends in ok or a reported runtime error —
 never panic, abort or hang (ORACLE-FAIL [C06])."""
 import runlib
-from common import Check
+from common import DRIVER, Check, sh
 
 MODULES = ["NaijaVerif.Props.C06Eval", "NaijaVerif.Props.C06Accepted"]
 # corpus/run plus the hand-written C06 programs (hoisted functions whose definition statement is dead code)
@@ -45,11 +45,49 @@ def run(ck: Check):
             ends[e] = ends.get(e, 0) + 1
         ck.extra_cov["product_endings"] = dict(sorted(ends.items()))
         ck.extra_cov["exhaustive"] = True
+    not_kept = plan_keeps_calls(ck, streams)
     if ck.tier == "thorough":
         ck.leanchecker(MODULES)
     if ck.is_broken():
         search(ck, streams)
+    if not_kept:
+        # `keptBlock` asks every function the plan keeps to call kept functions only; a hoisted definition in dead
+        # code that nobody calls (so what only it calls is "unused" and removed) fails it although nothing of it can
+        # run.  Such programs are outside the hypothesis of c06_accepted / c06_pipeline — they are covered by the tie
+        # (run with the plan: no crash) only; the share is reported, the smallest one kept as a sample.
+        r, a = min(not_kept, key=lambda x: len(x[0]))
+        ck.extra_cov["plan_keeps_calls_not_covered_sample"] = {"program": runlib.src_of(r)[:1500], "impl": a[:200],
+                                                               "plan": r.split(" plan=", 1)[1].split(" ", 1)[0]}
+        crashed = [(r, a) for r, a in not_kept if "end=panic" in a or "end=abort" in a]
+        if crashed and not ck.is_broken():
+            r, a = min(crashed, key=lambda x: len(x[0]))
+            ck.report_violation({"kind": "impl-vs-oracle", "family": "run", "what": "accepted program crashes with the "
+                                 "plan of the real analyses, which removes a function that kept code calls",
+                                 "program": runlib.src_of(r), "requests": [r], "impl": a})
     return ck.finish()
+
+
+def plan_keeps_calls(ck, streams):
+    """`Bridge.keptBlock plan root` (the decidable hypothesis PlanKeepsCalls of Props/C06Accepted.lean) evaluated by the
+    driver on the REAL plan and the real resolver's annotated AST of every accepted program of the run streams.
+    Returns [(request, implementation answer)] of the programs on which it is false."""
+    bad = []
+    for _kind, s in streams.items():
+        pairs = [(r, a) for r, a in zip(s["requests"], s["res"]["impl_lines"]) if r.startswith("run ") and " plan=none" not in r]
+        if not pairs:
+            continue
+        p = sh([DRIVER, "run"], inp=("\n".join("kept " + r[4:] for r, _ in pairs) + "\n").encode(), timeout=3600)
+        ans = p.stdout.decode(errors="replace").splitlines()
+        ck.count("plan_keeps_calls_checked", len(pairs))
+        ck.count("plan_keeps_calls_with_removed_functions",
+                 sum(1 for r, _ in pairs if not r.split(" plan=", 1)[1].split(" ", 1)[0].endswith(";-")))
+        if len(ans) != len(pairs):
+            ck.broken.append({"kind": "driver-answers-missing", "family": "run", "what": f"kept: {len(ans)}/{len(pairs)} answers"})
+        for (r, a), k in zip(pairs, ans):
+            if k != "kept=1":
+                bad.append((r, a))
+    ck.count("plan_keeps_calls_false", len(bad))
+    return bad
 
 
 def search(ck, streams):
